@@ -1,200 +1,5 @@
 // C15 - signal: every waiting listener gets every value; disconnect wakes all
-#include "common.h"
-#include "values.h"
-
-namespace c15 {
-
-struct Op { uint8_t code, a, b; };
-struct Prog { bool is_void; bool coro_mode; std::vector<Op> ops; };
-
-inline Prog decode(hz::Reader &r) {
-    Prog p; p.is_void = r.mod(4) == 0; p.coro_mode = r.mod(3) == 0;
-    unsigned n = 0;
-    while (r.more() && n < 40) { Op o; o.code = (uint8_t)r.mod(10); o.a = r.u8(); o.b = r.u8(); p.ops.push_back(o); n++; }
-    return p;
-}
-static const char *opn[] = {"add coroutine listener", "connect callback", "emit(by value)", "emit(rvalue)", "emit(lvalue ref)", "copy handle", "drop handle",
-                            "listener subscribes on another thread", "emit(by value)", "add coroutine listener"};
-inline std::string describe(const Prog &p) {
-    hz::Desc d; d << (p.is_void ? "signal<void>" : "signal<int>") << (p.coro_mode ? ", collector called from a coroutine (emission co_awaited)" : ", collector called from ordinary code") << ", " << (unsigned)p.ops.size() << " ops:";
-    for (auto &o : p.ops) {
-        d << " " << opn[o.code];
-        if (o.code == 0 || o.code == 9 || o.code == 7) d << "(" << (o.a % 4 == 3 ? std::string("until cancelled") : std::to_string(1 + o.a % 4) + " values") << ")";
-        if (o.code == 1) d << "(true x" << (unsigned)(o.a % 4) << " then false)";
-    }
-    d << "; drop all handles";
-    return d.s;
-}
-
-struct LRec {
-    bool is_callback = false;
-    int want = 0;                 // values before leaving (-1 = until cancelled); callback: true-returns before false
-    std::vector<int> got;
-    bool cancelled = false, left = false;
-    // model
-    std::vector<int> expect;
-    bool active = true;           // waiting for emissions (model)
-    int tolerant_first = -1;      // subscribed concurrently with this emission index: may or may not receive it
-    bool expect_cancel = false;
-};
-
-template<bool VOID> struct Sig { using S = cocls::signal<int>; };
-template<> struct Sig<true> { using S = cocls::signal<void>; };
-
-template<bool VOID>
-struct Run {
-    using S = typename Sig<VOID>::S;
-    std::vector<std::unique_ptr<S>> sigs;
-    std::vector<std::unique_ptr<typename S::collector>> cols;
-    std::deque<LRec> L;
-    int emissions = 0;
-    int lvalue_store = 0;
-    long callbacks_alive() { return hz::slot_get(12); }
-
-    cocls::async<void> listener(size_t id, typename S::emitter em) {
-        LRec &r = L[id];
-        for (int i = 0; r.want < 0 || i < r.want; i++) {
-            try {
-                if constexpr (VOID) { co_await em; r.got.push_back(-1); }
-                else { int &v = co_await em; r.got.push_back(v); }
-            } catch (const cocls::await_canceled_exception &) { r.cancelled = true; co_return; }
-        }
-        r.left = true;
-    }
-    struct CbGuard { CbGuard() { hz::slot_add(12, 1); } CbGuard(const CbGuard &) { hz::slot_add(12, 1); } CbGuard(CbGuard &&) noexcept { hz::slot_add(12, 1); } ~CbGuard() { hz::slot_add(12, -1); } };
-
-    typename S::collector &col() { return *cols.front(); }
-    bool has_handles() const { return !sigs.empty() || !cols.empty(); }
-    S *any_signal() { return sigs.empty() ? nullptr : sigs.front().get(); }
-
-    std::optional<typename S::emitter> spare;     // emitter obtained while the signal was alive
-    void add_listener(int want, bool other_thread, bool overlap) {
-        S *s = any_signal();
-        if (!s) {
-            if (has_handles() || !spare) return;
-            // awaiting a disconnected emitter fails immediately with await_canceled_exception
-            size_t id = L.size();
-            L.emplace_back(); L[id].want = want; L[id].active = false; L[id].expect_cancel = true;
-            listener(id, *spare).detach();
-            return;
-        }
-        size_t id = L.size();
-        L.emplace_back(); L[id].want = want;
-        if (!other_thread) { listener(id, s->get_emitter()).detach(); return; }
-        auto em = s->get_emitter();
-        std::thread t([this, id, em] { listener(id, em).detach(); });
-        if (!overlap) { t.join(); return; }
-        pending_thread = std::move(t);
-        L[id].tolerant_first = emissions;      // the next emission may or may not reach it
-    }
-    std::thread pending_thread;
-    void join_pending() { if (pending_thread.joinable()) pending_thread.join(); }
-
-    void add_callback(int trues) {
-        S *s = any_signal();
-        if (!s) return;
-        size_t id = L.size();
-        L.emplace_back(); L[id].is_callback = true; L[id].want = trues;
-        LRec *r = &L[id];
-        if constexpr (VOID) s->connect([r, g = CbGuard()]() { r->got.push_back(-1); return (int)r->got.size() <= r->want; });
-        else s->connect([r, g = CbGuard()](int &v) { r->got.push_back(v); return (int)r->got.size() <= r->want; });
-    }
-    void model_emit(int v) {
-        for (auto &r : L) {
-            if (!r.active) continue;
-            if (r.tolerant_first == emissions) continue;     // decided after the fact
-            r.expect.push_back(v);
-            if (r.is_callback) { if ((int)r.expect.size() > r.want) r.active = false; }
-            else if (r.want >= 0 && (int)r.expect.size() >= r.want) r.active = false;
-        }
-    }
-    // after the emission: a listener that subscribed concurrently either got the value or not
-    void settle_tolerant(int v) {
-        for (auto &r : L) if (r.tolerant_first == emissions && r.active) {
-            if (!r.got.empty() && r.got.size() == r.expect.size() + 1 && r.got.back() == v) {
-                r.expect.push_back(v);
-                if (r.want >= 0 && (int)r.expect.size() >= r.want) r.active = false;
-            }
-        }
-    }
-    void compare(const char *after) {
-        for (size_t i = 0; i < L.size(); i++) {
-            LRec &r = L[i];
-            HZ_CHECK(r.got == r.expect, "after %s: listener %zu (%s) received %zu values, %zu expected (last got %d, last expected %d): a waiting listener missed a value or got one twice",
-                     after, i, r.is_callback ? "callback" : "coroutine", r.got.size(), r.expect.size(), r.got.empty() ? 0 : r.got.back(), r.expect.empty() ? 0 : r.expect.back());
-            HZ_CHECK(r.cancelled == r.expect_cancel, "after %s: listener %zu cancelled=%d, expected %d", after, i, (int)r.cancelled, (int)r.expect_cancel);
-        }
-    }
-    void disconnect_model() { for (auto &r : L) if (r.active) { r.active = false; if (!r.is_callback) r.expect_cancel = true; } }
-};
-
-template<bool VOID>
-cocls::async<void> emit_coro(Run<VOID> &R, int how, int v) {
-    if constexpr (VOID) { co_await R.col()(); }
-    else {
-        if (how == 0) { co_await R.col()(int(v)); }
-        else if (how == 1) { int x = v; co_await R.col()(std::move(x)); }
-        else { R.lvalue_store = v; co_await R.col()(R.lvalue_store); }
-    }
-}
-
-template<bool VOID>
-void run_t(const Prog &p) {
-    unsigned max_waiting = 0; bool threaded = false;
-    {
-        Run<VOID> R;
-        R.sigs.emplace_back(new typename Run<VOID>::S());
-        R.cols.emplace_back(new typename Run<VOID>::S::collector(R.sigs[0]->get_collector()));
-        R.spare.emplace(R.sigs[0]->get_emitter());
-        for (auto &o : p.ops) {
-            switch (o.code) {
-                case 0: case 9: R.add_listener(o.a % 4 == 3 ? -1 : 1 + o.a % 4, false, false); break;
-                case 1: R.add_callback(o.a % 4); break;
-                case 2: case 3: case 4: case 8: {
-                    if (R.cols.empty()) break;
-                    int v = VOID ? -1 : 100 + R.emissions;
-                    int how = o.code == 3 ? 1 : o.code == 4 ? 2 : 0;
-                    unsigned waiting = 0; for (auto &r : R.L) if (r.active) waiting++;
-                    if (waiting > max_waiting) max_waiting = waiting;
-                    R.model_emit(v);
-                    if (p.coro_mode) { cocls::future<void> f = emit_coro<VOID>(R, how, v).start(); HZ_CHECK(f.ready(), "emitting coroutine did not finish"); }
-                    else if constexpr (VOID) R.col()();
-                    else { if (how == 0) R.col()(int(v)); else if (how == 1) { int x = v; R.col()(std::move(x)); } else { R.lvalue_store = v; R.col()(R.lvalue_store); } }
-                    R.join_pending();
-                    R.settle_tolerant(v);
-                    R.emissions++;
-                } break;
-                case 5: {
-                    if (o.a & 1) { if (!R.sigs.empty()) R.sigs.emplace_back(new typename Run<VOID>::S(*R.sigs[o.b % R.sigs.size()])); }
-                    else if (!R.cols.empty()) R.cols.emplace_back(new typename Run<VOID>::S::collector(*R.cols[o.b % R.cols.size()]));
-                } break;
-                case 6: {
-                    R.join_pending();
-                    // never drop the last collector while signals remain (keeps the history able to emit) unless asked
-                    if ((o.a & 1) && R.sigs.size() > 0 && (R.sigs.size() + R.cols.size() > 1 || (o.b & 3) == 0)) R.sigs.erase(R.sigs.begin() + (long)(o.b % R.sigs.size()));
-                    else if (R.cols.size() > 0 && (R.sigs.size() + R.cols.size() > 1 || (o.b & 3) == 0)) R.cols.erase(R.cols.begin() + (long)(o.b % R.cols.size()));
-                    if (!R.has_handles()) R.disconnect_model();
-                } break;
-                case 7: threaded = true; R.add_listener(o.a % 4 == 3 ? -1 : 1 + o.a % 4, true, (o.b & 1) && !R.pending_thread.joinable()); break;
-            }
-            if (!R.pending_thread.joinable()) R.compare(opn[o.code]);
-        }
-        R.join_pending();
-        // a listener that subscribed concurrently with an emission that never came is simply waiting
-        R.cols.clear(); R.sigs.clear();
-        R.disconnect_model();
-        R.compare("last handle dropped");
-        HZ_CHECK(R.callbacks_alive() == 0, "%ld connected callbacks were not released when the signal died", R.callbacks_alive());
-    }
-    hz::set_class((threaded ? 1 : 0) | (p.coro_mode ? 2 : 0));
-    hz::set_nontrivial(max_waiting >= 2);
-    hz::count(0, max_waiting);
-}
-
-inline void run(hz::Reader &r) { Prog p = decode(r); if (p.is_void) run_t<true>(p); else run_t<false>(p); }
-static const char *const class_names[] = {"normal", "normal+thread-subscriber", "coroutine-emitter", "coroutine-emitter+thread-subscriber"};
-static const char *const counter_names[] = {"sum_max_waiting_listeners"};
-} // namespace c15
+#include "scen_signal.h"
 
 namespace hz {
 static const Info I = {
